@@ -642,6 +642,9 @@ def run(ctx: Ctx, rep: Report, tier: str) -> None:
 
     sub = Report("C13")
     memo_rules(ctx, sub, rid="R05.1")
+    from .c17 import r17_2
+
+    r17_2(ctx, sub)  # ... and no cache outside the objects hands one address the networks of another
     rep.absorb(sub, "R13.6")
     # R13.8 the members a group is judged by are the members its text names: parsed under the group's own limit (C05
     # R05.6: a member refused under the default limit is silently left out), attached from the group of that very name (C07 R07.1)
